@@ -35,6 +35,14 @@ func (timeoutErr) Error() string   { return "i/o timeout (fake)" }
 func (timeoutErr) Timeout() bool   { return true }
 func (timeoutErr) Temporary() bool { return true }
 
+// ownErr is an error of the wrapped connection itself that is not a timeout and does not end the connection
+// (ICMP port unreachable on UDP, message too long, ...)
+type ownErr struct{}
+
+func (ownErr) Error() string   { return "connection refused (fake)" }
+func (ownErr) Timeout() bool   { return false }
+func (ownErr) Temporary() bool { return true }
+
 type fakeAddr struct{}
 
 func (fakeAddr) Network() string { return "fake" }
@@ -49,6 +57,8 @@ type fake struct {
 	rq      [][]byte // deliverable datagrams
 	credit  int      // writes the peer will take
 	half    bool     // the peer takes the first half of a pending write and then stalls
+	fail    bool     // the next operation that would wait fails with ownErr instead
+	calls   []call   // every call of the wrapped operation: who, the bytes transferred, how it ended
 	inWrite int      // Write calls currently parked in the wrapped connection
 	wcalls  []wcall  // every Write call: who, how many bytes were taken, which
 	rdl     time.Time
@@ -61,6 +71,13 @@ type fake struct {
 type wcall struct {
 	g int
 	b []byte
+}
+
+type call struct {
+	g      int
+	b      []byte
+	ok     bool // completed without error
+	failed bool // ended with ownErr
 }
 
 func newFake(s *vsched.Sched) *fake { return &fake{s: s, wake: make(chan struct{})} }
@@ -77,15 +94,30 @@ func (f *fake) read(b []byte) (int, error) {
 		f.mu.Lock()
 		if past(f.rdl) {
 			f.s.Record(f.s.CurID(), "RD", "", 0)
+			f.calls = append(f.calls, call{g: f.s.CurID()})
 			f.mu.Unlock()
 			return 0, timeoutErr{}
+		}
+		if f.fail {
+			f.fail = false
+			f.s.Record(f.s.CurID(), "RD", "", 3)
+			f.calls = append(f.calls, call{g: f.s.CurID(), failed: true})
+			f.mu.Unlock()
+			return 0, ownErr{}
 		}
 		if len(f.rq) > 0 {
 			d := f.rq[0]
 			f.rq = f.rq[1:]
 			n := copy(b, d)
-			f.handed = append(f.handed, d[:n])
-			f.s.Record(f.s.CurID(), "RD", "", 1)
+			if n > 0 {
+				f.handed = append(f.handed, d[:n])
+			}
+			k := 1
+			if len(d) == 0 {
+				k = 4 // an empty datagram
+			}
+			f.s.Record(f.s.CurID(), "RD", "", k)
+			f.calls = append(f.calls, call{g: f.s.CurID(), b: d[:n], ok: true})
 			f.mu.Unlock()
 			return n, nil
 		}
@@ -114,6 +146,7 @@ func (f *fake) write(b []byte) (int, error) {
 			}
 			f.s.Record(f.s.CurID(), "RD", "", k)
 			f.wcalls = append(f.wcalls, wcall{f.s.CurID(), append([]byte{}, b[:sent]...)})
+			f.calls = append(f.calls, call{g: f.s.CurID(), b: append([]byte{}, b[:sent]...)})
 			if sent > 0 {
 				f.taken = append(f.taken, append([]byte{}, b[:sent]...))
 			}
@@ -121,12 +154,26 @@ func (f *fake) write(b []byte) (int, error) {
 			f.mu.Unlock()
 			return sent, timeoutErr{}
 		}
+		if f.fail && sent == 0 {
+			f.fail = false
+			f.s.Record(f.s.CurID(), "RD", "", 3)
+			f.calls = append(f.calls, call{g: f.s.CurID(), failed: true})
+			f.mu.Unlock()
+			return 0, ownErr{}
+		}
 		if f.credit > 0 {
 			f.credit--
 			f.half = false
-			f.taken = append(f.taken, append([]byte{}, b...))
+			if len(b) > 0 {
+				f.taken = append(f.taken, append([]byte{}, b...))
+			}
 			f.wcalls = append(f.wcalls, wcall{f.s.CurID(), append([]byte{}, b...)})
-			f.s.Record(f.s.CurID(), "RD", "", 1)
+			f.calls = append(f.calls, call{g: f.s.CurID(), b: append([]byte{}, b...), ok: true})
+			k := 1
+			if len(b) == 0 {
+				k = 4 // an empty payload
+			}
+			f.s.Record(f.s.CurID(), "RD", "", k)
 			f.mu.Unlock()
 			return len(b), nil
 		}
@@ -276,6 +323,9 @@ func run(h *common.History, kind, nops int, schedule []int, direct bool) {
 		}
 		if isWrite(kind) {
 			o.buf = []byte{byte(100 + i), byte(i), 7}
+			if (i+nops+kind)%4 == 3 {
+				o.buf = []byte{} // an empty payload is a write like any other (on a packet connection: an empty datagram)
+			}
 		} else {
 			o.buf = make([]byte, 16)
 		}
@@ -283,11 +333,13 @@ func run(h *common.History, kind, nops int, schedule []int, direct bool) {
 		o.g = s.Go("op", func() {
 			n, err := op(o.ctx, o.buf)
 			o.n, o.err, o.returned = n, err, true
-			ce := 0
+			ce, oe := 0, 0
 			if err != nil && (errors.Is(err, context.Canceled) || errors.Is(err, context.DeadlineExceeded)) {
 				ce = 1
+			} else if err != nil && errors.As(err, &ownErr{}) {
+				oe = 1
 			}
-			s.Record(o.g.ID, "R", "", n*2+ce)
+			s.Record(o.g.ID, "R", "", n*4+oe*2+ce)
 		})
 		gid2op[o.g.ID] = i
 	}
@@ -333,16 +385,33 @@ func run(h *common.History, kind, nops int, schedule []int, direct bool) {
 			}
 		} else if len(f.rq) == 0 {
 			d := make([]byte, 1+int(seq)%7)
+			if int(seq/16)%4 == 2 {
+				d = []byte{} // an empty datagram
+			}
 			for k := range d {
 				d[k] = seq + byte(k)
 			}
 			seq += 16
 			f.rq = append(f.rq, d)
-			delivered = append(delivered, d)
+			if len(d) > 0 {
+				delivered = append(delivered, d)
+			}
 			ok = true
 		}
 		if ok {
 			s.Record(-1, "DA", "", 0)
+			f.poke()
+		}
+		f.mu.Unlock()
+		s.Settle()
+	}
+	doFail := func() {
+		// the wrapped connection will fail the operation that waits in it (or the next one) with an error of its own
+		f.mu.Lock()
+		ok := !f.fail && !f.half
+		if ok {
+			f.fail = true
+			s.Record(-1, "FA", "", 0)
 			f.poke()
 		}
 		f.mu.Unlock()
@@ -354,11 +423,11 @@ func run(h *common.History, kind, nops int, schedule []int, direct bool) {
 			return
 		}
 		o := target()
-		if o == nil || o.g.State != vsched.Blocked {
+		if o == nil || o.g.State != vsched.Blocked || len(o.buf) < 2 {
 			return
 		}
 		f.mu.Lock()
-		ok := !f.half && f.credit == 0 && !past(f.wdl) && f.inWrite > 0
+		ok := !f.half && !f.fail && f.credit == 0 && !past(f.wdl) && f.inWrite > 0
 		if ok {
 			f.half = true
 			s.Record(-1, "HA", "", 0)
@@ -455,6 +524,9 @@ func run(h *common.History, kind, nops int, schedule []int, direct bool) {
 			case e == -7:
 				stepped = append(stepped, -7)
 				doHalf()
+			case e == -8:
+				stepped = append(stepped, -8)
+				doFail()
 			case e == -3:
 				if next < nops {
 					stepped = append(stepped, -3)
@@ -492,7 +564,7 @@ func run(h *common.History, kind, nops int, schedule []int, direct bool) {
 			break
 		}
 		f.mu.Lock()
-		ready := (isWrite(kind) && f.credit > 0) || (!isWrite(kind) && len(f.rq) > 0)
+		ready := (isWrite(kind) && f.credit > 0) || (!isWrite(kind) && len(f.rq) > 0) || f.fail
 		f.mu.Unlock()
 		if ready {
 			flags |= fStuck
@@ -522,8 +594,28 @@ func run(h *common.History, kind, nops int, schedule []int, direct bool) {
 			continue
 		}
 		isCtxErr := o.err != nil && (errors.Is(o.err, context.Canceled) || errors.Is(o.err, context.DeadlineExceeded))
-		if o.err != nil && !isCtxErr && o.ctx.Err() == nil {
+		// what the wrapped connection was asked to do for this operation
+		var mine []call
+		for _, c := range f.calls {
+			if c.g == o.g.ID {
+				mine = append(mine, c)
+			}
+		}
+		failedItself := len(mine) == 1 && mine[0].failed
+		if o.err != nil && !isCtxErr && o.ctx.Err() == nil && !(failedItself && errors.As(o.err, &ownErr{})) {
 			flags |= fSpurious
+		}
+		if failedItself && o.err == nil {
+			flags |= fWrongErr // the wrapped connection's error was swallowed
+		}
+		if len(mine) > 1 {
+			flags |= fDataLost // the wrapped operation was performed twice
+		}
+		if len(mine) == 0 && o.err == nil {
+			flags |= fDataLost // success reported without asking the wrapped connection (matters for empty payloads)
+		}
+		if len(mine) == 1 && string(mine[0].b) != string(o.buf[:o.n]) {
+			flags |= fDataLost
 		}
 		if isCtxErr && o.n > 0 {
 			flags |= fWrongErr
@@ -642,11 +734,17 @@ func run(h *common.History, kind, nops int, schedule []int, direct bool) {
 				emit(4)
 			case 2:
 				emit(16)
+			case 3:
+				emit(19)
+			case 4:
+				emit(18)
 			default:
 				emit(5)
 			}
 		case "HA":
 			emit(17)
+		case "FA":
+			emit(20)
 		case "SD":
 			which := e.K / 10
 			dirOK := (isWrite(kind) && which == 1) || (!isWrite(kind) && which == 0)
@@ -662,7 +760,7 @@ func run(h *common.History, kind, nops int, schedule []int, direct bool) {
 				emit(92)
 			}
 		case "R":
-			emit(7, e.K/2, e.K%2)
+			emit(7, e.K/4, e.K%2, (e.K/2)%2)
 			retd[oi] = true
 		case "CA":
 			oi2 := gid2op[e.K]
@@ -688,7 +786,7 @@ func run(h *common.History, kind, nops int, schedule []int, direct bool) {
 	}
 	// per-operation byte counts are compared inside the replay as 0 / 1 ("some"): normalise
 	for _, seg := range h.Ops {
-		if len(seg) == 3 && seg[0] == "7" && seg[1] != "0" {
+		if len(seg) == 4 && seg[0] == "7" && seg[1] != "0" {
 			seg[1] = "1"
 		}
 	}
@@ -712,6 +810,8 @@ func run(h *common.History, kind, nops int, schedule []int, direct bool) {
 		tag(o.cancelled && o.n > 0, "cancelled_but_data")
 		tag(!o.cancelled && o.n > 0, "plain_data")
 		tag(o.timeout && o.cancelled, "timeout_ctx")
+		tag(o.err != nil && errors.As(o.err, &ownErr{}), "own_error_returned")
+		tag(o.err == nil && o.n == 0, "empty_transfer")
 	}
 	tag(len(preCancel) > 0, "cancel_before_lock")
 	tag(nops >= 3, "ops>=3")
@@ -746,9 +846,15 @@ func gen(r *rand.Rand) (kind, nops int, sched []int) {
 		}
 		// decisions for about one operation: ~12 goroutine steps with environment events sprinkled in
 		k := 6 + r.IntN(14)
-		cancelAt, readyAt, halfAt := -1, -1, -1
+		cancelAt, readyAt, halfAt, failAt := -1, -1, -1, -1
 		if r.IntN(3) == 0 {
 			halfAt = 5 + r.IntN(k) // the peer takes half of a parked write (writes only)
+		}
+		if r.IntN(4) == 0 {
+			failAt = r.IntN(k) // the wrapped connection fails by itself, often close to a cancellation
+			if r.IntN(2) == 0 {
+				halfAt = -1
+			}
 		}
 		switch mode {
 		case 0: // cancel somewhere, maybe data too
@@ -781,6 +887,9 @@ func gen(r *rand.Rand) (kind, nops int, sched []int) {
 			}
 			if j == halfAt {
 				sched = append(sched, -7)
+			}
+			if j == failAt {
+				sched = append(sched, -8)
 			}
 			if r.IntN(25) == 0 {
 				sched = append(sched, -3)
